@@ -165,6 +165,22 @@ Theorem C19_percall_default_no_interference :
 Proof. exact percall_no_interference. Qed.
 Print Assumptions C19_percall_default_no_interference.
 
+(** (5b) Helper objects with contents created per constructor call (GenericSubproblemSolver's
+    default minimize_kwargs since 181f4c4): for EVERY history of constructions and writes no two
+    objects share a helper, and a write through one object's helper is read back through that
+    object and through no other.  (A mutable default ARGUMENT -- one object for all calls -- does
+    not satisfy this: SharedDefault.shared_write_visible, kept as documentation only.) *)
+Theorem C19_percall_helpers_not_shared :
+  forall (V : Type) (d0 : V) ops w, hwf V w -> hwf V (hrun V d0 PerCall ops w).
+Proof. exact percall_helpers_not_shared. Qed.
+Print Assumptions C19_percall_helpers_not_shared.
+
+Theorem C19_percall_write_invisible :
+  forall (V : Type) (d0 : V) w i j v, hwf V w -> i < length (hloc V w) -> j < length (hloc V w) -> i <> j ->
+    hread V d0 (hwrite V w i v) i = v /\ hread V d0 (hwrite V w i v) j = hread V d0 w j.
+Proof. exact percall_write_invisible. Qed.
+Print Assumptions C19_percall_write_invisible.
+
 (** (6) Re-attaching one sub-problem solver object: internal_init rebuilds the derived data on
     every attachment, so for EVERY attachment history the solver state is a function of the ADMM
     attached now, and the x-step equals the x-step of a solver attached only to that ADMM.
@@ -222,3 +238,10 @@ Example C19_reattach_example :
     = [(1%Z, 1%Z); (1%Z, 3%Z)] /\
   xstep nat Z Z (Z * Z) w_solve (attach_hist nat Z Z w_build None w_hist) (7, 3%Z) = Some (3%Z, 3%Z).
 Proof. vm_compute. split; reflexivity. Qed.
+
+(* K(); K(); write through the first: per-call defaults keep the second at the default value *)
+Example C19_helper_content_example :
+  hwf Z (hempty Z) /\
+  (let w := hrun Z 100%Z PerCall [HConstruct Z; HConstruct Z; HWrite Z 0 1%Z] (hempty Z) in
+   hread Z 100%Z w 0 = 1%Z /\ hread Z 100%Z w 1 = 100%Z).
+Proof. split; [apply hwf_empty|]. vm_compute. split; reflexivity. Qed.
